@@ -188,6 +188,46 @@ def run(rep):
     rep.check(ok_seed, 'C08.closure-seed', f'seed:{q}', where, 'the closure is not seeded with the type of every module.global_variables element (unfiltered)', ok_detail='for g in module.global_variables: closure(g.ty)')
 
 
+def selection_predicate(ogp):
+    """(predicate term, {'A','B','C' -> atom term}) of the struct emission filter, or (None, None)"""
+    hits = []
+    for q, v in ogp.summaries.items():
+        stars = []
+        E.walk(v, lambda x: stars.append(x) if x[0] == 'star' and x[1][0] == 'f' and x[1][2] == 'types' and x[1][1][0] == 'param' else None)
+        for st in stars:
+            ts = E.find_templates(st[3], lambda t: 'pub struct #' in E.tmpl_text(t) and 'derive ( #(' in E.tmpl_text(t))
+            if ts:
+                hits.append((q, st))
+    if not hits:
+        return None, None
+    hits.sort(key=lambda h: len(ogp.crate.call_graph()[h[0]]))
+    q, st = hits[0]
+    modP = st[1][1]
+    elem = ('elem', st[2], st[1])
+    h = ('tf', elem, 0)
+    formula = [c for c in st[4] if not only_struct_cond(c, elem)]
+    if len(formula) != 1:
+        return None, None
+    atoms = {}
+
+    def classify(x):
+        if x[0] == 'any' and x[1][0] == 'star' and x[1][1] == ('f', modP, 'entry_points'):
+            txt = E.show(x[2], maxdepth=14)
+            if 'result' in txt and 'arguments' not in txt:
+                atoms.setdefault('A', x)
+                return False
+            if 'arguments' in txt:
+                atoms.setdefault('B', x)
+                return False
+        if x[0] == 'mcall' and x[2] == 'contains' and x[3] == [h]:
+            atoms.setdefault('C', x)
+            return False
+    E.walk(formula[0], classify)
+    if set(atoms) != {'A', 'B', 'C'}:
+        return None, None
+    return formula[0], atoms
+
+
 def closure_discipline(ogp, rep, rule, driver_q, set_term, modP, where):
     """the set `set_term` consulted by the driver is the transitive type closure of all module-scope variables:
     seeded with g.ty of every global (unfiltered, unconditional); inside the recursive closure function every visited handle is
